@@ -100,7 +100,7 @@ type c02Spec struct {
 }
 
 func checkC02(p *ana.Prog, r *ana.Result) {
-	r.Explain("C02 (structural premises of the containment lemma) for timemath.Median/FaultTolerantMidpoint and measurements.Median/FaultTolerantMidpoint: order independence premise - every read of an element of the parameter slice is preceded on every path by slices.Sort / slices.SortFunc on that slice, and the comparator reads only Offset and returns cmp.Compare of the two; effect - the functions store nothing through the slice themselves (the caller's slice is only reordered by the sort); selection premise - with n = len(s) the elements read are exactly s[(n-1)/3] and s[n-1-(n-1)/3] (fault-tolerant midpoint), s[n/2] when n%2 != 0 else s[n/2-1] and s[n/2] (median), and n == 0 panics; overflow-safe midpoint - the two-argument midpoint has the form x + (y-x)/2 (never (x+y)/k); measurement variants return a value they built from the selected elements' Offset and Timestamp only (Error left nil) and combine timestamps as earlier + (later-earlier)/2. Containment then follows from the arithmetic lemma stated in DESIGN.md (sorted multiset, drop floor((n-1)/3) from each end, average two survivors).")
+	r.Explain("C02 (structural premises of the containment lemma) for timemath.Median/FaultTolerantMidpoint and measurements.Median/FaultTolerantMidpoint: order independence premise - every read of an element of the parameter slice is preceded on every path by slices.Sort / slices.SortFunc on that slice, and the comparator reads only Offset and returns cmp.Compare of the two; effect - the functions store nothing through the slice themselves (the caller's slice is only reordered by the sort); selection premise - decided by enumeration: for every n = len(s) in 0..40 (which decides all n, DESIGN.md A.10) every path of the function is followed by an abstract evaluator (integers concrete, elements symbolic): n == 0 panics, otherwise the result is lo + (hi-lo)/2 of the elements at positions k and n-1-k of the sorted argument, k = (n-1)/3 (fault-tolerant midpoint) or (n-1)/2 (median), however the index arithmetic, case split and helpers are written (functions outside the evaluator's domain fall back to index-shape rules); overflow-safe midpoint - the two-argument midpoint has the form x + (y-x)/2 (never (x+y)/k); measurement variants return a value they built from the selected elements' Offset and Timestamp only (Error left nil) and combine timestamps as earlier + (later-earlier)/2. Containment then follows from the arithmetic lemma stated in DESIGN.md (sorted multiset, drop floor((n-1)/3) from each end, average two survivors).")
 	r.Undecided("the arithmetic lemma itself, ties between equal offsets with different timestamps (unstable sort), overflow outside |v| < 2^62")
 	specs := []c02Spec{
 		{"base/timemath", "Median", false, false},
@@ -123,6 +123,7 @@ func c02Func(p *ana.Prog, r *ana.Result, sp c02Spec) {
 	param := ssa.Value(fn.Params[0])
 	// sort call
 	var sortCall *ssa.Call
+	isSort := map[*ssa.Call]bool{}
 	ana.Instrs(fn, func(in ssa.Instruction) {
 		c, ok := in.(*ssa.Call)
 		if !ok {
@@ -131,14 +132,25 @@ func c02Func(p *ana.Prog, r *ana.Result, sp c02Spec) {
 		n := ana.CalleeName(&c.Call)
 		if (strings.HasPrefix(n, "slices.Sort") || strings.HasPrefix(n, "slices.SortFunc") || strings.HasPrefix(n, "slices.SortStableFunc")) && c.Call.Args[0] == param {
 			sortCall = c
+			isSort[c] = true
 		}
 	})
 	if sortCall == nil {
 		r.Violate("C02.sorted", fname, "sort-call", p.Pos(fn.Pos()), "UNDECIDED: the function does not sort its argument with slices.Sort/SortFunc (selection without sorting is not a recognised idiom)")
 		return
 	}
-	// comparator
-	if strings.Contains(ana.CalleeName(&sortCall.Call), "SortFunc") {
+	// comparator (of every sort call)
+	var sortCalls []*ssa.Call
+	for c := range isSort {
+		if c != sortCall {
+			sortCalls = append(sortCalls, c)
+		}
+	}
+	sortCalls = append(sortCalls, sortCall)
+	for _, sortCall := range sortCalls {
+		if !strings.Contains(ana.CalleeName(&sortCall.Call), "SortFunc") {
+			continue
+		}
 		cmpFn, _ := sortCall.Call.Args[1].(*ssa.Function)
 		if mc, ok := sortCall.Call.Args[1].(*ssa.MakeClosure); ok {
 			cmpFn, _ = mc.Fn.(*ssa.Function)
@@ -179,6 +191,21 @@ func c02Func(p *ana.Prog, r *ana.Result, sp c02Spec) {
 			r.Violate("C02.sorted", fname, "comparator-by-offset", posOf(p, sortCall), "the sort comparator is not ascending order by Offset only (e.g. compares timestamps or is reversed)")
 		}
 	}
+	// selection, emptiness, order independence and result form: decided by enumeration over
+	// n = 0..c02MaxN where the function is inside the evaluator's domain
+	byTable := false
+	if decided, okT, detail, paths := c02Table(fn, sp.ftm, sp.meas); decided {
+		byTable = true
+		if okT {
+			what := "(n-1)/3"
+			if !sp.ftm {
+				what = "(n-1)/2"
+			}
+			r.Ok("C02.select", fname, "selection-by-enumeration", p.Pos(fn.Pos()), fmt.Sprintf("for every n in 0..%d (which decides every n, see DESIGN.md) and each of the %d paths: n == 0 panics; otherwise the result is lo + (hi-lo)/2 of the elements at positions k and n-1-k, k = %s, read after the argument was sorted", c02MaxN, paths, what))
+		} else {
+			r.Violate("C02.select", fname, "selection-by-enumeration", p.Pos(fn.Pos()), detail)
+		}
+	}
 	// element reads and stores
 	type read struct {
 		in  ssa.Instruction
@@ -210,13 +237,16 @@ func c02Func(p *ana.Prog, r *ana.Result, sp c02Spec) {
 		case *ssa.IndexAddr, *ssa.DebugRef:
 		case *ssa.Call:
 			n := ana.CalleeName(&x.Call)
-			if x == sortCall || n == "builtin.len" {
+			if x == sortCall || isSort[x] || n == "builtin.len" {
 				continue
 			}
 			r.Violate("C02.effect", fname, "slice-escapes:"+ana.Short(n), posOf(p, x), "the slice is handed to "+ana.Short(n)+" (effects on the caller's slice are not bounded to reordering)")
 		default:
 			r.Violate("C02.effect", fname, "slice-use", posOf(p, ref), "UNDECIDED: unrecognised use of the parameter slice")
 		}
+	}
+	if byTable {
+		return
 	}
 	okSorted := true
 	for _, rd := range reads {
@@ -429,6 +459,25 @@ func c02Midpoint(p *ana.Prog, r *ana.Result) {
 			r.Ok("C02.midpoint", fname, "overflow-safe-form", p.Pos(mp.Pos()), "Midpoint(x, y) = x + (y-x)/2")
 		} else {
 			r.Violate("C02.midpoint", fname, "overflow-safe-form", p.Pos(mp.Pos()), "Midpoint is not computed as x + (y-x)/2 (e.g. (x+y)/2 overflows for magnitudes below 2^62)")
+		}
+	}
+	if f := p.Func("core/measurements", "midpoint"); f == nil || f.Blocks == nil {
+		// no pair-combining helper: the combination is written out where it is used and was decided
+		// there by enumeration (selection-by-enumeration covers offset form, timestamp and nil error)
+		okInline := true
+		for _, n := range []string{"Median", "FaultTolerantMidpoint"} {
+			fn := p.Func("core/measurements", n)
+			if fn == nil {
+				okInline = false
+				continue
+			}
+			if decided, okT, _, _ := c02Table(fn, n != "Median", true); !decided || !okT {
+				okInline = false
+			}
+		}
+		if okInline {
+			r.Ok("C02.midpoint", "core/measurements", "combination-inline", "core/measurements", "there is no midpoint helper; both functions build the combined measurement in place, decided by enumeration")
+			return
 		}
 	}
 	mm := mustFunc(p, r, "core/measurements", "midpoint")
